@@ -3,6 +3,8 @@ import Mkdb.Driver.Sql
 import Mkdb.Driver.Tuple
 import Mkdb.Driver.Page
 import Mkdb.Driver.Exec
+import Mkdb.Spec.Tables
+import Mkdb.Spec.Shape
 namespace Mkdb.Driver.Db
 open Mkdb.Engine Mkdb.Store Mkdb.Page Mkdb.Sql Mkdb.Driver Mkdb
 
@@ -121,5 +123,140 @@ def stepLine (st : St) (line : String) : St × List String :=
     | .unmodelled w => ({ st with dead := true }, ["unmodelled " ++ w])
     | .fuel => ({ st with dead := true }, ["hang"])
   | _ => (st, [])
+
+end Mkdb.Driver.Db
+
+namespace Mkdb.Driver.Db
+open Mkdb.Spec Mkdb.Sql Mkdb.Driver Mkdb
+
+/-- Judge for the database-level properties (C01, C02, C11, C14): the implementation's
+statement outcomes, SELECT * results and heap dumps against the in-memory table spec and
+the shape invariants. -/
+structure J where
+  caseId : String := "?"
+  sdb : SDB := []
+  seenIds : List Nat := []          -- every row id ever observed, any table
+  recovered : Bool := false         -- a crash + recovery happened in this case
+  tainted : List Bytes := []        -- tables possibly changed by a statement that returned an error
+  stopped : Bool := false           -- recovery failed: nothing more to judge
+
+def phase (j : J) : String := if j.recovered then "after-recovery" else "live"
+
+def parseImplRows (s : String) : List (Nat × List Tuple.Val) :=
+  -- "rows 12: v v | 13: v v"
+  let body := (s.drop 5).toString
+  if body.trimAscii.toString.isEmpty then [] else
+  (body.splitOn "|").filterMap fun r =>
+    match words r with
+    | idw :: vs => (idw.dropEnd 1).toString.toNat?.map fun id => (id, vs.map Tuple.parseVal)
+    | [] => none
+
+def vio (j : J) (sig what : String) : String := s!"VIOLATION case={j.caseId} sig={sig} {what}"
+
+def applyStmt (j : J) (op : String) (stmt : Stmt) (outs : List String) : J × List String :=
+  let short := (op.take 300).toString
+  let out := outs.head?.getD ""
+  let table : Bytes := match stmt with
+    | .insert t _ _ => t | .update t _ _ => t | .delete t _ => t | .createTable t _ => t | _ => []
+  if out == "panic" then ({ j with stopped := true }, [vio j s!"db:panic:{phase j}" s!"op=[{short}]"])
+  else if out == "hang" then ({ j with stopped := true }, [vio j s!"db:hang:{phase j}" s!"op=[{short}]"])
+  else if out.startsWith "unmodelled" then ({ j with stopped := true }, [])
+  else
+  match specStmt j.sdb stmt with
+  | some sdb' =>
+    if out == "ok" then ({ j with sdb := sdb' }, [])
+    else
+      -- a valid statement was refused; its table may also have been changed
+      ({ j with tainted := table :: j.tainted },
+        [vio j s!"db:valid-statement-refused:{phase j}" s!"got=[{out}] op=[{short}]"])
+  | none =>
+    if out == "ok" then (j, [vio j "db:invalid-statement-accepted" s!"op=[{short}]"])
+    else ({ j with tainted := table :: j.tainted }, [])
+
+def judgeSelect (j : J) (table : Bytes) (outs : List String) : J × List String :=
+  match findTable j.sdb table with
+  | none => (j, [])
+  | some t =>
+    match outs with
+    | [sch, rowsLine] =>
+      let got := parseImplRows rowsLine
+      let wantSchema := showSchema t.cols
+      let v0 := if sch == wantSchema then [] else [vio j s!"db:schema-differs:{phase j}" s!"want=[{wantSchema}] got=[{sch}]"]
+      let valsOk := got.map (·.2) == t.rows.map (·.vals)
+      let tainted := j.tainted.contains table
+      let ids := got.map (·.1)
+      let asc := Shape.strictlyAscending ids
+      -- ids: stable for rows already seen, fresh (never seen anywhere) for new rows
+      let idProblems := if !valsOk then [] else
+        (t.rows.zip ids).filterMap fun (r, id) =>
+          match r.id with
+          | some old => if old == id then none else some s!"row-id-changed {old}->{id}"
+          | none => if j.seenIds.contains id then some s!"row-id-reused {id}" else none
+      let v1 := if valsOk then [] else
+        if tainted then [vio j "db:failed-statement-changed-table" s!"table={hexOrDash table} want=[{(showRows (t.rows.map fun r => (0, r.vals))).take 300}] got=[{(rowsLine.take 300).toString}]"]
+        else [vio j s!"db:contents-differ:{phase j}" s!"table={hexOrDash table} want=[{(showRows (t.rows.map fun r => (0, r.vals))).take 300}] got=[{(rowsLine.take 300).toString}]"]
+      let v2 := if asc then [] else [vio j s!"db:row-ids-not-increasing:{phase j}" s!"table={hexOrDash table} ids={ids}"]
+      let v3 := idProblems.map fun p => vio j s!"db:row-id:{phase j}" s!"table={hexOrDash table} {p}"
+      -- adopt what the implementation holds so that one defect is reported once
+      let newRows : List SRow := if valsOk then (t.rows.zip ids).map (fun (r, id) => { r with id := some id })
+        else got.map fun g => ⟨some g.1, g.2⟩
+      let sdb' := j.sdb.map fun x => if x.name == table then { x with rows := newRows } else x
+      ({ j with sdb := sdb', seenIds := (j.seenIds ++ ids).eraseDups, tainted := j.tainted.filter (· != table) }, v0 ++ v1 ++ v2 ++ v3)
+    | [o] =>
+      if o.startsWith "err" || o == "panic" || o == "hang" then
+        ({ j with stopped := o != "err tableNotExist" }, [vio j s!"db:select-failed:{phase j}" s!"table={hexOrDash table} got=[{o}]"])
+      else (j, [])
+    | _ => (j, [])
+
+def parsePageLine (l : String) : Option (Nat × Page.Node) :=
+  match words l with
+  | kind :: rest =>
+    if kind == "leaf" || kind == "int" then
+      (Page.parseNode (kind :: rest)).map fun n => (Store.nodeOff n, n)
+    else none
+  | [] => none
+
+def judgeRoots (j : J) (outs : List String) : J × List String :=
+  let heap : Spec.Shape.Heap := outs.filterMap parsePageLine
+  let roots : List (String × Nat) := match outs.find? (·.startsWith "roots") with
+    | some l => (words l).drop 1 |>.filterMap fun w => match w.splitOn "=" with | [n, o] => o.toNat?.map (n, ·) | _ => none
+    | none => []
+  let vs := roots.flatMap fun (n, root) =>
+    (Spec.Shape.check heap root).map fun p => vio j s!"db:shape:{(p.splitOn " ").headD p}" s!"table={n} root={root} problem=[{p}]"
+  (j, vs.take 5)
+
+def judgeLine (j : J) (op : String) (outs : List String) : J × List String :=
+  match words op with
+  | ["case", n] => ({ caseId := n }, [])
+  | _ =>
+  if j.stopped then (j, []) else
+  match words op with
+  | ["createdb"] => ({ j with sdb := [] }, [])
+  | "stmt" :: ws =>
+    match Mkdb.Driver.Exec.parseQuery ws with
+    | some (.ok s) => applyStmt j op s outs
+    | _ => (j, [])
+  | "insertv" :: table :: cols :: rest =>
+    let tbl := (bytesOfHex table).getD []
+    let cs := if cols == "-" then [] else (cols.splitOn ",").map fun c => (bytesOfHex c).getD []
+    -- direct values: same statement with values that have no SQL text
+    let rows := parseRows (" ".intercalate rest)
+    let out := outs.head?.getD ""
+    let short := (op.take 300).toString
+    if out == "panic" || out == "hang" then ({ j with stopped := true }, [vio j s!"db:{out}:{phase j}" s!"op=[{short}]"]) else
+    match specInsert j.sdb tbl cs rows with
+    | some sdb' =>
+      if out == "ok" then ({ j with sdb := sdb' }, [])
+      else ({ j with tainted := tbl :: j.tainted }, [vio j s!"db:valid-statement-refused:{phase j}" s!"got=[{out}] op=[{short}]"])
+    | none =>
+      if out == "ok" then (j, [vio j "db:invalid-statement-accepted" s!"op=[{short}]"])
+      else ({ j with tainted := tbl :: j.tainted }, [])
+  | ["select", table] => judgeSelect j ((bytesOfHex table).getD []) outs
+  | ["roots"] => judgeRoots j outs
+  | ["recover"] =>
+    let out := outs.head?.getD ""
+    if out == "ok" then ({ j with recovered := true }, [])
+    else ({ j with recovered := true, stopped := out != "initerr" }, [vio j s!"db:recovery-failed:{out}" ""])
+  | _ => (j, [])
 
 end Mkdb.Driver.Db
